@@ -2,7 +2,10 @@
 """collectseeds.py log... — turn seedverify.sh queue logs into seeded/<id>-seedN/verified.txt (latest block wins)."""
 import re, sys, os
 blocks = {}
-for path in sys.argv[1:]:
+def _num(p):
+    m = re.search(r'(\d+)\.log$', p)
+    return int(m.group(1)) if m else 0
+for path in sorted(sys.argv[1:], key=_num):
     cur = None
     for line in open(path, errors='replace'):
         m = re.match(r'=== (?:recheck )?(C\d\d) seed(\d)(.*)', line)
